@@ -15,6 +15,10 @@ import (
 
 var ErrInjected = errors.New("memstream: injected transport error")
 
+// ErrNoRoom is returned when the consumer keeps presenting an empty buffer although bytes are pending: it made no room
+// for the rest of what it is waiting for and would spin forever.
+var ErrNoRoom = errors.New("memstream: reader presented an empty buffer 64 times in a row while bytes were pending (it made no room for the data it is waiting for)")
+
 type Stream struct {
 	in    [][]byte
 	InErr error // returned once the script is exhausted (default io.EOF)
@@ -38,6 +42,7 @@ type Stream struct {
 	OverlapReads, OverlapWrites int
 	Closed                      bool
 	SyncReads, AsyncReads       int
+	zeroReads                   int
 }
 
 type op struct {
@@ -67,8 +72,15 @@ func (s *Stream) read(b []byte) (int, error) {
 		s.in = s.in[1:]
 	}
 	if len(b) == 0 {
+		if len(s.in) > 0 {
+			s.zeroReads++
+			if s.zeroReads > 64 {
+				return 0, ErrNoRoom
+			}
+		}
 		return 0, nil
 	}
+	s.zeroReads = 0
 	if len(s.in) == 0 {
 		return 0, s.InErr
 	}
